@@ -163,6 +163,23 @@ pub fn c15(a: &Args) {
             }
         }
     }
+    // B right at the nesting limit after documents of every kind (nothing of A may count against B)
+    for ta in ["---\n", "---\n---\n", "--- # c\n", "a\n", "--- a\n--- b\n", "- - - a\n", "[[[a]]]\n", "%YAML 1.2\n---\n", "--- |\n x\n", "? a\n", "&x a\n--- &y b\n"] {
+        for shape in ["seq", "qkey", "seqmap", "mixflow"] {
+            for d in [254usize, 255, 998, 999, 1000] {
+                let tb = super::c11::shape_text(shape, d);
+                let (ra, rb) = (run_str(ta), run_str(&tb));
+                if ra.err.is_some() || ra.panic.is_some() || rb.panic.is_some() || rb.err.is_some() {
+                    continue;
+                }
+                let tab = format!("{ta}...\n{tb}");
+                let rab = run_str(&tab);
+                let y = if rab.panic.is_some() { json!({"evs": [], "err": [{"msg": format!("PANIC {}", rab.panic.clone().unwrap()), "at": [0, 0, 0]}]}) } else { run_json(&rab) };
+                writeln!(w, "{}", json!({"k": "CONCAT", "ta": ta, "tb": tb, "via": "pull/str", "a": run_json(&ra), "b": run_json(&rb), "ab": y})).unwrap();
+                nrec += 1;
+            }
+        }
+    }
     w.flush().unwrap();
     println!("{}", json!({"accepted": acc.len(), "a_candidates": las.len(), "records": nrec, "chains": chains, "samples": samples}));
 }
